@@ -229,10 +229,15 @@ ADDR_FUNCS = ['is_valid_ipv4', 'is_valid_ipv6', 'is_valid_ip', 'is_valid_cidr',
 
 def call(fname, arg):
     from oslo_utils import netutils
-    try:
-        return ('ret', bool(getattr(netutils, fname)(arg)))
-    except Exception as e:
-        return ('raises', type(e).__name__)
+    out = []
+    for _ in (1, 2):          # asked twice: the answer must not depend on earlier calls
+        try:
+            out.append(('ret', bool(getattr(netutils, fname)(arg))))
+        except Exception as e:
+            out.append(('raises', type(e).__name__))
+    if out[0] != out[1]:
+        return ('raises', 'UnstableAnswer:%r-then-%r' % (out[0], out[1]))
+    return out[0]
 
 
 def _case(vals, acc):
